@@ -738,6 +738,12 @@ func (c *Config) mutualVersion(vers uint16) (uint16, bool) {
 	if vers > maxVersion {
 		vers = maxVersion
 	}
+	switch vers {
+	case VersionGMSSL, VersionSSL30, VersionTLS10, VersionTLS11, VersionTLS12:
+	default:
+		// [minVersion, maxVersion] spans 0x0101..0x0303 but only these values are protocol versions
+		return 0, false
+	}
 	return vers, true
 }
 
